@@ -4,28 +4,44 @@ from hypothesis import strategies as st
 
 from vlib import oracles as R
 from vlib import strategies as S
-from vlib.harness import Outcome, TOL_F, scale_of
+from vlib.harness import Outcome, TOL_F, canonical, hash32, scale_of
 
 ID = "C14"
 TITLE = "Alternative representations of the same function agree"
 RULE = ("Each case picks one of six representation pairs (label pair:*) and a "
         "valid configuration for it: kfl = KroneckerFactoredLattice (size 2-4, "
-        "1-4 dims, 1-3 units, 1-4 terms, clip on/off, extra batch dims, list "
-        "inputs, assigned or initialiser weights) vs Lattice holding the dense "
-        "kernel; pwl = pwl_calibration_fn (2-8 keypoints, none/increasing, "
-        "clamps, cyclic, derived/fixed/no missing output, every documented "
-        "parameter shape incl. per-example parameters) vs PWLCalibration "
-        "(fixed keypoints, one layer per distinct keypoint set, or "
-        "learned_interior logits); cdf = cdf_fn vs CDF (sigmoid/relu6, "
+        "1-4 dims, 1-3 units, 1-4 terms, clip on/off, 0-2 extra batch dims of "
+        "size 1-3, list inputs, assigned or initialiser weights) vs Lattice "
+        "holding the dense kernel; pwl = pwl_calibration_fn (2-8 keypoints, "
+        "none/increasing, clamps, cyclic, derived/fixed/no missing output, "
+        "every documented parameter shape incl. per-example parameters and "
+        "keypoint_input_parameters=None, input ranges down to 1e-3, free "
+        "parameters up to 30 (inputs) / 100 (outputs), keyword arguments that "
+        "equal their defaults omitted in a third of the cases) vs "
+        "PWLCalibration (fixed keypoints, one layer per distinct keypoint "
+        "set, or learned_interior logits); cdf = cdf_fn vs CDF (sigmoid/relu6, "
         "mean/none, sparsity 1-3, no/scalar/per-input scaling with and without "
         "the exp transform, per-example locations); pc = ParallelCombination "
-        "of PWL/categorical/linear calibrators (tensor or list input, single "
-        "or list output) vs column-wise calls; agg = Aggregation of a "
-        "lattice/linear keras model over ragged rows of different lengths "
-        "(list or dict input) vs per-example mean; rtl = RTL (dict in both key "
-        "orders / list groups / plain tensor, all_vertices with hypercube or "
-        "simplex, kronecker_factored, separate/averaged outputs) vs gathering "
-        "_rtl_structure indices into stand-alone lattices. Both library sides "
+        "of PWL (plain, missing-value imputation, learned_interior, "
+        "non-default constraint options) / categorical / linear / 1-D Lattice "
+        "calibrators, built from the constructor list or by append() (tensor "
+        "or list input, single or list output) vs column-wise calls; agg = "
+        "Aggregation of a lattice/linear keras model, bare or behind PWL / "
+        "categorical (int32 ragged input) calibrators, over ragged rows of "
+        "different lengths (list or dict input, feature names whose sorted "
+        "order differs from the input order) vs per-example mean; rtl = RTL "
+        "(dict in both key orders / list groups / plain tensor, all_vertices "
+        "with hypercube or simplex, kronecker_factored, lattice_size 2-4, "
+        "with and without output bounds, separate/averaged outputs, and the "
+        "separate outputs chained into a second RTL) vs gathering "
+        "_rtl_structure indices into stand-alone lattices. kfl, pc and rtl "
+        "layers are evaluated eagerly, inside a tf.function whose signature "
+        "leaves the batch size unknown, or as a Keras functional / Sequential "
+        "model (label *:exec-*). Options that do not influence the rest of "
+        "the case (execution mode, input container, extra batch dims, "
+        "constructor form, feature naming, RTL bounds / chaining) are derived "
+        "in run_case from a hash of the whole case, the other class-defining "
+        "options from a hash of drawn integers. Both library sides "
         "are compared with each other and with a float64 reference. "
         "Non-trivial: the represented function is not constant (dense kernel "
         "/ keypoint outputs / step activations / per-element model values / "
@@ -51,7 +67,10 @@ LEVEL_TEXT = ("Generated-input exploration: thousands of random valid "
 LEVEL_NOTE = ("Tolerance 1e-4 relative to the magnitude of the terms summed "
               "(TOL_F); for PWL a conditioning term sum|dy_i|*min(1, "
               "2*(k+2)*eps32*(|x|+max|keypoint|)/len_i) is added for segments x lies "
-              "in or next to (float32 keypoints of very short segments). CDF "
+              "in or next to (float32 keypoints of very short segments; also "
+              "for learned_interior calibrators inside ParallelCombination). "
+              "The second RTL of a chain is judged on the first one's actual "
+              "float32 outputs. CDF "
               "geometric mean excluded as stated. KFL/Lattice with "
               "clip_inputs=False are only evaluated inside the lattice domain. "
               "Cases whose float32 keypoint deltas underflow to 0 are "
@@ -71,6 +90,86 @@ ASSUMPTIONS = [
 
 PAIRS = ["kfl", "pwl", "cdf", "pc", "agg", "rtl"]
 EPS32 = float(np.finfo(np.float32).eps)
+# how a layer is evaluated: eager call with static shapes; inside a tf.function
+# whose input signature leaves the batch size unknown; as a Keras functional
+# model (symbolic inputs with batch size None).
+EXEC_MODES = ["eager", "eager", "function", "model"]
+
+
+@st.composite
+def _picker(draw):
+  """Hypothesis repeats and mutates earlier draws, which leaves some options
+  of a small sampled_from list nearly unvisited in a 400-case shard.  The
+  options that define the input classes of this module are therefore selected
+  by hashing drawn integers together with the option's name (uniform and
+  independent, still a pure function of the drawn values; the result is stored
+  in the case)."""
+  mix = hash32(draw(S.seeds), draw(S.seeds), draw(S.seeds))
+  return lambda name, options: options[hash32(mix, name) % len(options)]
+
+
+def _derived(case):
+  """Options that do not influence what else is generated (execution mode,
+  input container, extra batch dimensions, constructor form, ...) are derived
+  inside run_case from a hash of the whole case: any difference between two
+  cases re-draws them, so Hypothesis' near-duplicate examples still spread
+  over all classes.  Deterministic (exact replay); an explicit key of the same
+  name in the case wins; cases written before these options existed (no "v"
+  key) get the old fixed behaviour `legacy`."""
+  h = hash32(canonical(case))
+
+  def opt(name, options, legacy):
+    if name in case:
+      return case[name]
+    if case.get("v") != 2:
+      return legacy
+    return options[hash32(h, name) % len(options)]
+  return opt
+
+
+class _ExecCrash(Exception):
+  """A built layer raised on a valid call in graph mode.  Inside a tf.function
+  / Keras model the traceback no longer names the library file, so the harness
+  could not attribute it; run_case turns it into a violation."""
+
+  def __init__(self, mode, err):
+    Exception.__init__(self, "call in %s mode raised %s: %s" % (
+        mode, type(err).__name__, str(err)[:300]))
+    self.mode, self.exc = mode, type(err).__name__
+
+
+def _exec(layer, xin, mode):
+  """layer(xin) for a tensor / list / dict of (lists of) tensors, evaluated in
+  the given execution mode.  The layer is already built."""
+  if mode == "eager":
+    return layer(xin)
+  try:
+    return _exec_graph(layer, xin, mode)
+  except Exception as e:  # pylint: disable=broad-except
+    raise _ExecCrash(mode, e)
+
+
+def _exec_graph(layer, xin, mode):
+  import tensorflow as tf
+  flat = tf.nest.flatten(xin)
+  if mode == "function":
+    specs = [tf.TensorSpec([None] + list(t.shape[1:]), t.dtype) for t in flat]
+
+    @tf.function(input_signature=specs)
+    def fn(*args):
+      return layer(tf.nest.pack_sequence_as(xin, list(args)))
+    return fn(*flat)
+  import tf_keras as keras
+  keras.backend.clear_session()   # functional models accumulate global state
+  if mode == "sequential":        # single tensor in, as in the PC docstring
+    seq = keras.models.Sequential()
+    seq.add(keras.layers.InputLayer(input_shape=tuple(xin.shape[1:])))
+    seq.add(layer)
+    return seq(xin)
+  ins = [keras.Input(shape=tuple(t.shape[1:]), dtype=t.dtype) for t in flat]
+  model = keras.Model(inputs=ins,
+                      outputs=layer(tf.nest.pack_sequence_as(xin, ins)))
+  return model(flat)
 
 
 # ---------------------------------------------------------------------------
@@ -181,11 +280,12 @@ X_MODES = ["inside", "inside", "vertices", "outside", "mixed", "mixed"]
 @st.composite
 def _kfl_case(draw, tier):
   big = tier == "thorough"
+  pick = draw(_picker())
   s = draw(st.integers(2, 5 if big else 4))
   d = draw(st.integers(1, 6 if big else 4))
   while s ** d > (2048 if big else 256):
     d -= 1
-  u = draw(st.sampled_from([1, 1, 2, 3]))
+  u = pick("kfl-units", [1, 1, 2, 3])
   t = draw(st.sampled_from([1, 2, 2, 3, 4]))
   weights = draw(st.sampled_from(["assigned"] * 4 + ["init"]))
   case = {"pair": "kfl", "size": s, "dims": d, "units": u, "terms": t,
@@ -194,8 +294,7 @@ def _kfl_case(draw, tier):
           "mono": draw(st.sampled_from([None, "all", "some"])),
           "bounds": draw(st.sampled_from([None, None, [0.0, 1.0], [-1.0, 3.0]]))
           if weights == "init" else None,
-          "extra": draw(st.sampled_from([None, None, None, 1, 2])),
-          "as_list": draw(st.sampled_from([False, False, True])),
+          "v": 2,
           "batch": draw(st.integers(1, 6 if big else 4)),
           "x_mode": draw(st.sampled_from(X_MODES)),
           "aux": draw(S.seeds)}
@@ -222,11 +321,21 @@ def _run_kfl(case, out):
     mono = [1] * d
   elif case["mono"] == "some":
     mono = [int(v) for v in rs.randint(0, 2, size=d)]
-  lead = [case["batch"]] + ([case["extra"]] if case["extra"] else [])
+  opt = _derived(case)
+  # extra leading dimensions (batch, e1[, e2], [units,] dims), sizes 1-3
+  extra = opt("extra", [[], [], [1], [2], [3], [2, 1], [1, 3], [3, 2], [2, 3],
+                        [3, 3]], [])
+  if not isinstance(extra, list):            # older replay files: None / int
+    extra = [extra] if extra else []
+  as_list = opt("as_list", [False, False, True], False)
+  mode = opt("exec", EXEC_MODES, "eager")
+  batch = case["batch"] if int(np.prod(extra or [1])) <= 3 else min(
+      case["batch"], 2)
+  lead = [batch] + list(extra)
   n = int(np.prod(lead))
   shape = lead + ([u] if u > 1 else []) + [d]
   x = _lattice_x(rs, case["x_mode"], n * u, [s] * d, clip).reshape(shape)
-  if case["as_list"]:
+  if as_list:
     xin = [tf.constant(x[..., j:j + 1]) for j in range(d)]
   else:
     xin = tf.constant(x)
@@ -256,12 +365,12 @@ def _run_kfl(case, out):
   mag = (np.abs(scale.astype(np.float64)) * np.prod(k4.max(axis=0), axis=1)
          ).mean(axis=1) + np.abs(bias.astype(np.float64))        # (u,)
   tol = TOL_F * mag + 1e-30
-  y_kfl = _f64(kfl(xin))
+  y_kfl = _f64(_exec(kfl, xin, mode))
   lat = tfl.layers.Lattice(lattice_sizes=[s] * d, units=u, clip_inputs=clip,
                            monotonicities=mono)
   lat(xin)
   lat.kernel.assign(dense.astype(np.float32))
-  y_lat = _f64(lat(xin))
+  y_lat = _f64(_exec(lat, xin, mode))
   x3 = x.reshape(n, u, d).astype(np.float64)
   ref = np.stack([R.interp_hypercube(x3[:, j, :], dense[:, j], [s] * d)
                   for j in range(u)], axis=-1).reshape(lead + [u])
@@ -270,10 +379,18 @@ def _run_kfl(case, out):
             "kfl:terms=%d" % t, "kfl:size=%d" % s, "kfl:dims=%d" % d,
             "kfl:clip" if clip else "kfl:noclip", "kfl:x-" + case["x_mode"],
             "kfl:weights-" + case["weights"])
-  if case["as_list"]:
+  if as_list:
     out.label("kfl:list-input")
-  if case["extra"]:
-    out.label("kfl:extra-batch-dim")
+  out.info["derived_options"] = dict(extra=extra, as_list=as_list, exec=mode)
+  out.label("kfl:exec-" + mode)
+  if extra:
+    out.label("kfl:extra-batch-dim", "kfl:extra-batch-dims=%d" % len(extra))
+    if max(extra) >= 3:
+      out.label("kfl:extra-batch-dim-size>=3")
+    if u > 1:
+      out.label("kfl:extra-batch-dim,units>1")
+      if as_list:
+        out.label("kfl:extra-batch-dim,units>1,list-input")
   out.nontrivial = bool(np.any(np.ptp(dense, axis=0) > 10 * tol))
   _cmp(out, "kfl-vs-ref", y_kfl, ref, tol, sig)
   _cmp(out, "lattice-vs-ref", y_lat, ref, tol, sig)
@@ -282,11 +399,21 @@ def _run_kfl(case, out):
 
 # ---------------------------------------------------------------------------
 # pair pwl: pwl_calibration_fn vs PWLCalibration
+PWL_FN_DEFAULTS = dict(
+    keypoint_input_min=0.0, keypoint_input_max=1.0, keypoint_output_min=0.0,
+    keypoint_output_max=1.0, units=1, monotonicity="none", clamp_min=False,
+    clamp_max=False, is_cyclic=False, missing_input_value=None,
+    missing_output_value=None)
+
+
 @st.composite
 def _pwl_case(draw, tier):
   big = tier == "thorough"
+  pick = draw(_picker())
   units = draw(st.sampled_from([1, 1, 2, 3]))
   k = draw(st.integers(2, 12 if big else 8))
+  if pick("pwl-two-keypoints", [False] * 5 + [True]):
+    k = 2
   mono = draw(st.sampled_from(["none", "increasing"]))
   cmin = cmax = cyc = False
   if mono == "increasing":
@@ -299,15 +426,30 @@ def _pwl_case(draw, tier):
     cmax = False
   p = k - cmin - cmax - cyc + (missing == "derived")
   batch = draw(st.integers(1, 6 if big else 4))
-  in_batch = draw(st.sampled_from([False, False, True]))
+  pin_none = k == 2 and pick("pwl-pin-none", [True, True, False])
+  # keypoint_input_parameters=None carries no per-example dimension
+  in_batch = draw(st.sampled_from([False, False, True])) and not pin_none
   out_batch = draw(st.sampled_from([False, False, True]))
   in_form = draw(st.sampled_from(["2d", "u1", "uU"]))
   out_form = draw(st.sampled_from(["2d", "uU"])) if units == 1 else "uU"
   in_min = S.f32(draw(st.sampled_from([-100.0, -1.0, 0.0, 0.0, 0.5, 3.0])))
   in_max = S.f32(in_min + draw(st.sampled_from([0.25, 1.0, 1.0, 2.0, 10.0,
                                                 1000.0])))
+  narrow = pick("pwl-narrow-range", [None] * 5 + [1e-3, 1e-2])
+  if narrow is not None:
+    # tiny input range; next to 0 so that float32 still resolves the keypoints
+    in_min = S.f32(draw(st.sampled_from([0.0, 0.0, -1.0, 0.5, 3.0])))
+    in_max = S.f32(in_min + narrow)
   omin = S.f32(draw(st.sampled_from([-10.0, -1.0, 0.0, 0.0, 0.5, 100.0])))
   omax = S.f32(omin + draw(st.sampled_from([0.0, 0.5, 1.0, 1.0, 3.0, 1000.0])))
+  # omit every keyword argument that equals its documented default
+  omit = pick("pwl-omit-defaults", [False, False, True])
+  if omit and pick("pwl-default-in-range", [True, False]):
+    in_min, in_max, narrow = 0.0, 1.0, None
+  if omit and pick("pwl-default-out-range", [True, False]):
+    omin, omax = 0.0, 1.0
+  # large free parameters (saturated sigmoids / softmax) in a share of cases
+  big_par = pick("pwl-large-params", [False, False, False, True])
   n_in = (batch if in_batch else 1) * (units if in_form == "uU" else 1) * (k - 2)
   n_out = (batch if out_batch else 1) * units * p
   case = {"pair": "pwl", "units": units, "k": k, "mono": mono, "cmin": cmin,
@@ -316,11 +458,17 @@ def _pwl_case(draw, tier):
           "out_form": out_form, "in_min": in_min, "in_max": in_max,
           "omin": omin, "omax": omax,
           "pin": _desc(draw, n_in, ["normal", "normal", "uniform", "zeros",
-                                    "ints", "ties"], [0.1, 1.0, 1.0, 2.0, 4.0],
-                       4.0),
+                                    "ints", "ties"],
+                       [8.0, 30.0] if big_par else [0.1, 1.0, 1.0, 2.0, 4.0],
+                       30.0 if big_par else 4.0),
           "pout": _desc(draw, n_out, ["normal", "normal", "uniform", "zeros",
                                       "ints", "sorted"],
-                        [0.1, 1.0, 1.0, 3.0, 10.0], 10.0),
+                        [30.0, 100.0] if big_par else
+                        [0.1, 1.0, 1.0, 3.0, 10.0],
+                        100.0 if big_par else 10.0),
+          "large_params": big_par, "narrow": narrow is not None,
+          "omit_defaults": omit,
+          "pin_none": pin_none,
           "x_cols": draw(st.sampled_from([1, units])),
           "x_mode": draw(st.sampled_from(["inside", "inside", "keypoints",
                                           "outside", "mixed", "mixed"])),
@@ -465,6 +613,8 @@ def _run_pwl(case, out):
   xu = np.broadcast_to(x, (b, u))
 
   pin_t = tf.constant(pin[:, 0, :] if case["in_form"] == "2d" else pin)
+  if case.get("pin_none"):
+    pin_t = None         # documented form when only the two end keypoints exist
   pout_t = tf.constant(pout[:, 0, :] if case["out_form"] == "2d" else pout)
   kwargs = dict(
       keypoint_input_min=lo, keypoint_input_max=hi, keypoint_output_min=omin,
@@ -472,6 +622,17 @@ def _run_pwl(case, out):
       clamp_min=case["cmin"], clamp_max=case["cmax"],
       is_cyclic=case["cyclic"], missing_input_value=miss_in,
       missing_output_value=case["miss_out"])
+  if case.get("omit_defaults"):
+    omitted = [key for key, v in kwargs.items()
+               if v == PWL_FN_DEFAULTS[key] and
+               type(v) is type(PWL_FN_DEFAULTS[key])]
+    for key in omitted:
+      del kwargs[key]
+    out.label("pwl:defaults-omitted")
+    if "keypoint_input_max" in omitted and "keypoint_input_min" in omitted:
+      out.label("pwl:default-input-range-omitted")
+    if "keypoint_output_max" in omitted and "keypoint_output_min" in omitted:
+      out.label("pwl:default-output-range-omitted")
   y_fn, d_fn, k_fn = fn(tf.constant(x), pin_t, pout_t,
                         return_derived_parameters=True, **kwargs)
   y_plain = _f64(fn(tf.constant(x), pin_t, pout_t, **kwargs))
@@ -485,6 +646,12 @@ def _run_pwl(case, out):
             "pwl:per-example-params" if bi > 1 or bo > 1 else
             "pwl:shared-params", "pwl:in-" + case["in_form"],
             "pwl:k=2" if k == 2 else "pwl:k>2")
+  if case.get("pin_none"):
+    out.label("pwl:input-parameters=None")
+  if case.get("large_params"):
+    out.label("pwl:large-parameters")
+  if case.get("narrow"):
+    out.label("pwl:narrow-input-range")
   if xc == 1 and u > 1:
     out.label("pwl:broadcast-input")
   sig = dict(pair="pwl", mono=case["mono"], cyclic=case["cyclic"],
@@ -710,19 +877,25 @@ def _run_cdf(case, out):
 @st.composite
 def _pc_case(draw, tier):
   big = tier == "thorough"
+  pick = draw(_picker())
   n = draw(st.integers(1, 10 if big else 6))
   cals = []
-  for _ in range(n):
-    typ = draw(st.sampled_from(["pwl", "pwl", "cat", "lin"]))
+  for i in range(n):
+    typ = pick("pc-type-%d" % i, ["pwl", "pwl", "pwl", "cat", "lin", "lat"])
     if typ == "pwl":
       kk = draw(st.integers(2, 8 if big else 6))
       start = draw(st.sampled_from([-10.0, -1.0, 0.0, 0.5, 3.0]))
       gaps = [draw(st.sampled_from([0.25, 0.5, 1.0, 2.0])) for _ in
               range(kk - 1)]
       kp = S.f32(list(start + np.concatenate([[0.0], np.cumsum(gaps)])))
-      cals.append({"type": "pwl", "kp": kp,
-                   "cyclic": kk >= 3 and draw(st.sampled_from(
-                       [False, False, True])),
+      # non-default layer options: missing-value imputation, learned interior
+      # keypoints, constraint options (they do not change the function of the
+      # assigned kernel)
+      variant = pick("pc-pwl-variant-%d" % i,
+                     ["plain", "plain", "missing", "learned", "options"])
+      cals.append({"type": "pwl", "kp": kp, "variant": variant,
+                   "cyclic": kk >= 3 and variant != "options" and draw(
+                       st.sampled_from([False, False, True])),
                    "kernel": draw(S.array_desc(
                        kinds=["normal", "uniform", "ints", "sorted", "spike"],
                        scales=[1e-2, 1.0, 1.0, 10.0, 1e3]))})
@@ -733,11 +906,19 @@ def _pc_case(draw, tier):
                    "kernel": draw(S.array_desc(
                        kinds=["normal", "uniform", "ints"],
                        scales=[1e-2, 1.0, 1.0, 10.0, 1e3]))})
+    elif typ == "lat":
+      # "any other layers taking and returning tensor of shape (batch, 1)"
+      cals.append({"type": "lat", "size": draw(st.integers(2, 5)),
+                   "interp": draw(st.sampled_from(["hypercube", "simplex"])),
+                   "kernel": draw(S.array_desc(
+                       kinds=["normal", "uniform", "ints", "sorted"],
+                       scales=[1e-2, 1.0, 1.0, 10.0, 1e3]))})
     else:
       cals.append({"type": "lin", "bias": draw(st.booleans()),
                    "kernel": draw(S.array_desc(
                        kinds=["normal", "ints"], scales=[1e-2, 1.0, 10.0]))})
-  return {"pair": "pc", "cals": cals, "batch": draw(st.integers(1, 5)),
+  return {"pair": "pc", "v": 2, "cals": cals,
+          "batch": draw(st.integers(1, 5)),
           "list_input": draw(st.sampled_from([False, False, True])),
           "single_output": draw(st.sampled_from([True, True, False])),
           "aux": draw(S.seeds)}
@@ -747,11 +928,13 @@ def _run_pc(case, out):
   import tensorflow as tf
   import tensorflow_lattice as tfl
   rs = np.random.RandomState(case["aux"])
+  opt = _derived(case)
   b, cals = case["batch"], case["cals"]
   n = len(cals)
   x = np.zeros((b, n), np.float32)
   ref = np.zeros((b, n))
   mag = np.zeros(n)
+  cond = np.zeros((b, n))
   layers = []
   for c, cal in enumerate(cals):
     if cal["type"] == "pwl":
@@ -759,8 +942,20 @@ def _run_pc(case, out):
       kk = len(kp)
       nw = kk - cal["cyclic"]
       w = S.materialize(cal["kernel"], (nw, 1))
+      variant = cal.get("variant", "plain")
+      kw = {}
+      miss_in = None
+      if variant == "missing":
+        miss_in = float(np.float32(kp[0] - 7.0))
+        kw = dict(impute_missing=True, missing_input_value=miss_in)
+      elif variant == "learned":
+        kw = dict(input_keypoints_type="learned_interior")
+      elif variant == "options":
+        kw = dict(monotonicity="increasing", output_min=-2.0, output_max=5.0,
+                  clamp_min=True, convexity="none",
+                  num_projection_iterations=3, kernel_initializer="equal_slopes")
       layer = tfl.layers.PWLCalibration(input_keypoints=cal["kp"], units=1,
-                                        is_cyclic=cal["cyclic"])
+                                        is_cyclic=cal["cyclic"], **kw)
       layer.build((None, 1))
       layer.kernel.assign(w)
       w64 = w[:, 0].astype(np.float64)
@@ -768,13 +963,33 @@ def _run_pc(case, out):
       if cal["cyclic"]:
         heights = np.concatenate([heights, [-np.sum(heights)]])
       ys = w64[0] + np.concatenate([[0.0], np.cumsum(heights)])
+      if variant == "learned":
+        # interior keypoints: softmax of the logits split the input range
+        logits = rs.normal(size=(1, kk - 1)).astype(np.float32)
+        layer.interpolation_logits.assign(logits)
+        kp = kp[0] + np.concatenate([[0.0], np.cumsum(_softmax(
+            logits[0].astype(np.float64)))]) * (kp[-1] - kp[0])
       pick = rs.randint(0, 3, size=b)
       col = np.where(pick == 0, rs.uniform(kp[0] - 1, kp[-1] + 1, size=b),
                      np.where(pick == 1, kp[rs.randint(0, kk, size=b)],
                               rs.uniform(kp[0], kp[-1], size=b)))
+      miss_out = 0.0
+      if variant == "missing":
+        miss_out = float(np.float32(rs.normal() * 3))
+        layer.missing_output.assign([[miss_out]])
+        col = np.where(rs.rand(b) < 0.35, miss_in, col)
       x[:, c] = col.astype(np.float32)
       ref[:, c] = R.pwl_eval(x[:, c], kp, ys)
-      mag[c] = np.abs(w64[0]) + np.sum(np.abs(heights))
+      if variant == "missing":
+        ref[:, c] = np.where(x[:, c] == np.float32(miss_in), miss_out,
+                             ref[:, c])
+      mag[c] = np.abs(w64[0]) + np.sum(np.abs(heights)) + abs(miss_out)
+      if variant == "learned":
+        # float32 keypoints derived from a softmax: same conditioning
+        # allowance as for the pwl pair
+        kern = np.concatenate([ys[:1], np.diff(ys)])
+        cond[:, c] = _pwl_cond_tol(x[:, c:c + 1], kp[None, None, :],
+                                   kern[None, None, :])[:, 0]
     elif cal["type"] == "cat":
       nb = cal["buckets"]
       w = S.materialize(cal["kernel"], (nb, 1))
@@ -794,6 +1009,17 @@ def _run_pc(case, out):
       x[:, c] = col.astype(np.float32)
       ref[:, c] = w[idx, 0].astype(np.float64)
       mag[c] = np.max(np.abs(w))
+    elif cal["type"] == "lat":
+      sz = cal["size"]
+      w = S.materialize(cal["kernel"], (sz, 1))
+      layer = tfl.layers.Lattice(lattice_sizes=[sz], units=1,
+                                 interpolation=cal["interp"])
+      layer.build((None, 1))
+      layer.kernel.assign(w)
+      x[:, c] = _lattice_x(rs, "mixed", b, [sz], True)[:, 0]
+      ref[:, c] = R.interp_hypercube(x[:, c:c + 1].astype(np.float64),
+                                     w[:, 0], [sz])
+      mag[c] = np.max(np.abs(w))
     else:
       w = S.materialize(cal["kernel"], (2, 1))[:, 0]
       layer = tfl.layers.Linear(num_input_dims=1, use_bias=cal["bias"])
@@ -808,13 +1034,27 @@ def _run_pc(case, out):
       ref[:, c] = float(w[0]) * x[:, c].astype(np.float64) + bias
       mag[c] = np.max(np.abs(float(w[0]) * x[:, c])) + abs(bias)
     layers.append(layer)
-  pc = tfl.layers.ParallelCombination(layers,
-                                      single_output=case["single_output"])
+  # constructor list, or the docstring's append() loop
+  construct = opt("construct", ["list", "append"], "list")
+  if construct == "append":
+    pc = tfl.layers.ParallelCombination(single_output=case["single_output"])
+    for layer in layers:
+      pc.append(layer)
+  else:
+    pc = tfl.layers.ParallelCombination(layers,
+                                        single_output=case["single_output"])
   if case["list_input"]:
     xin = [tf.constant(x[:, c:c + 1]) for c in range(n)]
   else:
     xin = tf.constant(x)
-  y = pc(xin)
+  mode = opt("exec", EXEC_MODES + ["sequential"], "eager")
+  if mode == "sequential" and (case["list_input"] or
+                               not case["single_output"]):
+    mode = "model"          # a Sequential model passes single tensors only
+  y = _exec(pc, xin, mode)
+  if mode == "model" and n == 1 and not case["single_output"] and not (
+      isinstance(y, (list, tuple))):
+    y = [y]    # a Keras functional model unwraps a one-element output list
   out.checks += 1
   sig = dict(pair="pc", list_input=case["list_input"],
              single_output=case["single_output"])
@@ -834,8 +1074,15 @@ def _run_pc(case, out):
   types = sorted(set(c["type"] for c in cals))
   out.label("pc:k=1" if n == 1 else "pc:k>1", "pc:types-" + "+".join(types),
             "pc:list-input" if case["list_input"] else "pc:tensor-input",
-            "pc:single-output" if case["single_output"] else "pc:list-output")
-  tol = TOL_F * mag[None, :] + 1e-30
+            "pc:single-output" if case["single_output"] else "pc:list-output",
+            "pc:constructor-" + construct, "pc:exec-" + mode)
+  for cal in cals:
+    if cal["type"] == "pwl" and cal.get("variant", "plain") != "plain":
+      out.label("pc:pwl-" + cal["variant"])
+    if cal["type"] == "lat":
+      out.label("pc:lattice-1d")
+  out.info["derived_options"] = dict(construct=construct, exec=mode)
+  tol = TOL_F * mag[None, :] + 1e-30 + cond
   out.nontrivial = bool(n > 1 and np.any(np.abs(ref) > tol))
   _cmp(out, "pc-vs-ref", y_pc, ref, tol, sig)
   _cmp(out, "columns-vs-ref", y_cols, ref, tol, sig)
@@ -857,8 +1104,16 @@ def _agg_case(draw, tier):
   batch = draw(st.integers(1, 8 if big else 5))
   lengths = [draw(st.integers(1, 12 if big else 6)) for _ in range(batch)]
   n = int(np.prod(sizes)) if kind == "lattice" else d + 1
-  return {"pair": "agg", "kind": kind, "sizes": sizes, "lengths": lengths,
-          "dict_input": draw(st.sampled_from([False, False, True])),
+  pick = draw(_picker())
+  # calibrators in front of the wrapped model: per feature none / a
+  # PWLCalibration / a CategoricalCalibration fed by an int32 ragged tensor
+  front = pick("agg-front", [None, None, "calibrated"])
+  if front:
+    front = [pick("agg-front-%d" % j, ["pwl", "pwl", "cat", "none"])
+             for j in range(d)]
+  return {"pair": "agg", "v": 2, "kind": kind, "sizes": sizes,
+          "lengths": lengths, "front": front,
+          "dict_input": pick("agg-dict", [False, True]),
           "scalar_inputs": draw(st.booleans()),
           "kernel": draw(S.array_desc(
               kinds=["normal", "normal", "uniform", "ints", "sorted", "spike"],
@@ -874,40 +1129,87 @@ def _run_agg(case, out):
   rs = np.random.RandomState(case["aux"])
   sizes, lengths, kind = case["sizes"], case["lengths"], case["kind"]
   d, b, total = len(sizes), len(lengths), int(sum(lengths))
+  opt = _derived(case)
+  # feature names whose sorted order differs from the order of the inputs
+  # (Keras orders dict inputs by key)
+  naming = opt("naming", ["f0..", "f0..", "unsorted", "reversed"], "f0..")
   names = ["f%d" % i for i in range(d)]
-  ishape = () if case["scalar_inputs"] else (1,)
-  ins = [keras.Input(shape=ishape, name=nm) for nm in names]
-  if case["scalar_inputs"]:
-    cat = keras.layers.Lambda(lambda z: tf.stack(z, axis=-1))(ins)
-  elif d > 1:
-    cat = keras.layers.Concatenate(axis=-1)(ins)
-  else:
-    cat = ins[0]
+  if naming == "unsorted":
+    names = ["b", "a", "f10", "f2", "c"][:d]
+  elif naming == "reversed":
+    names = names[::-1]
+  front = case.get("front") or ["none"] * d
+  scalar = case["scalar_inputs"] and not case.get("front")
+  ishape = () if scalar else (1,)
+  ins = [keras.Input(shape=ishape, name=nm,
+                     dtype="int32" if front[j] == "cat" else "float32")
+         for j, nm in enumerate(names)]
   if kind == "lattice":
     n = int(np.prod(sizes))
     core = tfl.layers.Lattice(lattice_sizes=sizes, units=1)
     w = S.materialize(case["kernel"], (n, 1))
     xs = _lattice_x(rs, case["x_mode"], total, sizes, True)
+    c_lo, c_hi = np.zeros(d), np.asarray(sizes, np.float64) - 1.0
   else:
     core = tfl.layers.Linear(num_input_dims=d, use_bias=True)
     w = S.materialize(case["kernel"], (d + 1, 1))
     xs = (rs.normal(size=(total, d)) * rs.choice([0.1, 1.0, 10.0])).astype(
         np.float32)
+    c_lo, c_hi = -np.ones(d), np.ones(d)
+  # calibrators: map the raw element values to the wrapped layer's inputs
+  cols, cal = list(ins), xs.astype(np.float64)       # cal: float64 reference
+  int_cols = set()
+  for j in range(d):
+    if front[j] == "pwl":
+      kp = np.linspace(float(np.min(xs[:, j])) - 0.5,
+                       float(np.max(xs[:, j])) + 0.5, 4).astype(np.float32)
+      ys = np.sort(rs.uniform(c_lo[j], c_hi[j], size=4)) if rs.rand() < 0.5 \
+          else rs.uniform(c_lo[j], c_hi[j], size=4)
+      kern = np.concatenate([ys[:1], np.diff(ys)]).astype(np.float32)
+      layer = tfl.layers.PWLCalibration(input_keypoints=kp, units=1,
+                                        output_min=float(c_lo[j]),
+                                        output_max=float(c_hi[j]))
+      cols[j] = layer(ins[j])
+      layer.kernel.assign(kern[:, None])
+      y32 = np.cumsum(kern.astype(np.float64))
+      cal[:, j] = R.pwl_eval(xs[:, j].astype(np.float64),
+                             kp.astype(np.float64), y32)
+    elif front[j] == "cat":
+      nb = int(rs.randint(2, 6))
+      kern = rs.uniform(c_lo[j], c_hi[j], size=(nb, 1)).astype(np.float32)
+      layer = tfl.layers.CategoricalCalibration(
+          num_buckets=nb, units=1, output_min=float(c_lo[j]),
+          output_max=float(c_hi[j]))
+      cols[j] = layer(ins[j])
+      layer.kernel.assign(kern)
+      idx = rs.randint(0, nb, size=total)
+      xs[:, j] = idx                       # carried as int32 below
+      cal[:, j] = kern[idx, 0].astype(np.float64)
+      int_cols.add(j)
+  if scalar:
+    cat = keras.layers.Lambda(lambda z: tf.stack(z, axis=-1))(cols)
+  elif d > 1:
+    cat = keras.layers.Concatenate(axis=-1)(cols)
+  else:
+    cat = cols[0]
   o = core(cat)
   model = keras.Model(inputs=dict(zip(names, ins)) if case["dict_input"]
                       else ins, outputs=o)
   if kind == "lattice":
     core.kernel.assign(w)
-    f_ref = R.interp_hypercube(xs.astype(np.float64), w[:, 0], sizes)
+    f_ref = R.interp_hypercube(cal, w[:, 0], sizes)
     mag = float(np.max(np.abs(w)))
   else:
     core.kernel.assign(w[:d])
     core.bias.assign(w[d:].reshape(core.bias.shape))
-    terms = xs.astype(np.float64) * w[:d, 0].astype(np.float64)[None, :]
+    terms = cal * w[:d, 0].astype(np.float64)[None, :]
     f_ref = terms.sum(-1) + float(w[d, 0])
     mag = float(np.max(np.abs(terms).sum(-1)) + abs(float(w[d, 0])))
+
+  def column(rows, j):
+    return rows[:, j].astype(np.int32) if j in int_cols else rows[:, j]
   splits = np.concatenate([[0], np.cumsum(lengths)]).astype(np.int64)
-  ragged = [tf.RaggedTensor.from_row_splits(tf.constant(xs[:, j]), splits)
+  ragged = [tf.RaggedTensor.from_row_splits(tf.constant(column(xs, j)), splits)
             for j in range(d)]
   agg = tfl.layers.Aggregation(model)
   xin = dict(zip(names, ragged)) if case["dict_input"] else ragged
@@ -917,9 +1219,9 @@ def _run_agg(case, out):
   ref = np.zeros((b, 1))
   for e in range(b):
     rows = xs[splits[e]:splits[e + 1]]
-    cols = [tf.constant(rows[:, j] if case["scalar_inputs"] else
-                        rows[:, j:j + 1]) for j in range(d)]
-    fe = _f64(model(dict(zip(names, cols)) if case["dict_input"] else cols))
+    ecols = [tf.constant(column(rows, j) if scalar else
+                         column(rows, j)[:, None]) for j in range(d)]
+    fe = _f64(model(dict(zip(names, ecols)) if case["dict_input"] else ecols))
     y_direct[e, 0] = fe.astype(np.float64).mean()
     ref[e, 0] = f_ref[splits[e]:splits[e + 1]].mean()
   out.label("agg:" + kind, "agg:dims=%d" % d,
@@ -927,8 +1229,17 @@ def _run_agg(case, out):
             "agg:ragged-different-lengths" if len(set(lengths)) > 1 else
             "agg:equal-lengths",
             "agg:batch=1" if b == 1 else "agg:batch>1",
-            "agg:scalar-model-inputs" if case["scalar_inputs"] else
-            "agg:column-model-inputs")
+            "agg:scalar-model-inputs" if scalar else
+            "agg:column-model-inputs", "agg:names-" + naming)
+  if case.get("front"):
+    out.label("agg:calibrated-inputs")
+    if int_cols:
+      out.label("agg:int32-categorical-ragged-input")
+    if "pwl" in front:
+      out.label("agg:pwl-calibrated-input")
+  if case["dict_input"] and naming != "f0.." and d > 1:
+    out.label("agg:dict-input,sorted-order-differs")
+  out.info["derived_options"] = dict(naming=naming)
   sig = dict(pair="agg", model=kind, dict_input=case["dict_input"])
   tol = TOL_F * mag + 1e-30
   out.nontrivial = bool(max(lengths) > 1 and np.ptp(f_ref) > 10 * tol)
@@ -942,8 +1253,9 @@ def _run_agg(case, out):
 @st.composite
 def _rtl_case(draw, tier):
   big = tier == "thorough"
-  fmt = draw(st.sampled_from(["tensor", "dict", "dict", "dict", "dict-rev",
-                              "dict-rev"]))
+  pick = draw(_picker())
+  fmt = pick("rtl-format", ["tensor", "tensor", "dict", "dict", "dict",
+                            "dict-rev", "dict-rev"])
   if fmt == "tensor":
     groups = {"unconstrained": draw(st.integers(1, 8 if big else 6))}
   else:
@@ -962,14 +1274,19 @@ def _rtl_case(draw, tier):
   num = draw(st.integers(min_lat, min_lat + (6 if big else 4)))
   param = draw(st.sampled_from(["all_vertices", "all_vertices",
                                 "kronecker_factored"]))
-  return {"pair": "rtl", "format": fmt, "groups": groups, "rank": rank,
-          "num": num, "size": draw(st.sampled_from([2, 2, 3])),
+  # average_outputs is documented as ignored when separate_outputs is set
+  outputs = pick("rtl-outputs", ["joint", "joint", "averaged", "averaged",
+                                 "separate", "separate", "separate+averaged"])
+  return {"pair": "rtl", "v": 2, "format": fmt, "groups": groups, "rank": rank,
+          "num": num,
+          "size": pick("rtl-size", [2, 2, 3, 3, 4] if rank <= 2 else
+                       [2, 2, 3]),
           "param": param,
           "interp": draw(st.sampled_from(["hypercube", "hypercube",
                                           "simplex"])),
           "terms": draw(st.integers(1, 3)),
-          "separate": draw(st.sampled_from([False, False, True])),
-          "average": draw(st.sampled_from([False, False, True])),
+          "separate": outputs.startswith("separate"),
+          "average": outputs.endswith("averaged"),
           "avoid": draw(st.sampled_from([True, True, False])),
           "clip": draw(st.sampled_from([True, True, False])),
           "rtl_seed": draw(st.integers(0, 1000)),
@@ -980,11 +1297,132 @@ def _rtl_case(draw, tier):
           "x_mode": draw(st.sampled_from(X_MODES)), "aux": draw(S.seeds)}
 
 
+def _rtl_stage(case, out, rs, rtl, xin, flat, is_inc, sig, mode, stage):
+  """Assigns weights to the sub-lattices of a built RTL layer and compares its
+  output on `xin` (whose flattened columns are `flat`, `is_inc` marking the
+  'increasing' ones) with a float64 reference and with stand-alone lattices
+  fed by gathering the recorded indices.  Returns the layer output (dict or
+  float64 array) or None after a structural violation."""
+  import tensorflow as tf
+  import tensorflow_lattice as tfl
+  rank, s, b = rtl.lattice_rank, rtl.lattice_size, flat.shape[0]
+  clip, param, interp = rtl.clip_inputs, rtl.parameterization, rtl.interpolation
+  n_in = flat.shape[1]
+  structure = [(tuple(int(m) for m in mono),
+                [[int(i) for i in unit] for unit in units])
+               for mono, units in rtl._rtl_structure]
+  out.label("rtl:several-monotonicity-patterns" if len(structure) > 1 else
+            "rtl:one-monotonicity-pattern")
+  # the recorded wiring must be usable: right counts, indices in range and of
+  # the recorded monotonicity.
+  out.checks += 1
+  n_units = sum(len(units) for _, units in structure)
+  wiring_ok = n_units == rtl.num_lattices
+  for mono, units in structure:
+    for unit in units:
+      wiring_ok &= len(unit) == rank == len(mono)
+      wiring_ok &= all(0 <= i < n_in and is_inc[i] == bool(m)
+                       for i, m in zip(unit, mono))
+  if not wiring_ok:
+    out.violate("_rtl_structure %r does not describe %d lattices of rank %d "
+                "over the flattened input (increasing columns first: %r)" %
+                (structure, rtl.num_lattices, rank, is_inc),
+                clause="rtl-structure", kind="wiring", **sig)
+    return None
+  # assign weights to the sub-lattices, build stand-alone twins
+  ref_cols, twin_cols, mags, mono_flags = [], [], [], []
+  flat64 = flat.astype(np.float64)
+  for li, (mono, units) in enumerate(structure):
+    sub = rtl._lattice_layers[str(mono)]
+    nu = len(units)
+    seed_shift = dict(case["kernel"])
+    if seed_shift["kind"] != "explicit":
+      seed_shift["seed"] = (seed_shift["seed"] + 7919 * li +
+                            104729 * stage) % (2**31 - 1)
+    gathered = np.stack([flat[:, unit] for unit in units], axis=1)  # (b,nu,r)
+    twin_in = gathered[:, 0, :] if nu == 1 else gathered
+    if param == "all_vertices":
+      w = S.materialize(seed_shift, (s ** rank, nu))
+      sub.kernel.assign(w)
+      dense = w.astype(np.float64)
+      twin = tfl.layers.Lattice(lattice_sizes=[s] * rank, units=nu,
+                                clip_inputs=clip, interpolation=interp)
+      twin(tf.constant(twin_in))
+      twin.kernel.assign(w)
+      mag = np.max(np.abs(dense), axis=0)
+    else:
+      t = rtl.num_terms
+      kern = S.materialize(seed_shift, (s * nu * rank * t, 1)).reshape(
+          1, s, nu * rank, t)
+      kern = np.clip(kern, -1e3, 1e3)
+      scale = rs.normal(size=(nu, t)).astype(np.float32)
+      bias = rs.normal(size=(nu,)).astype(np.float32)
+      sub.kernel.assign(kern)
+      sub.scale.assign(scale)
+      sub.bias.assign(bias)
+      dense = R.kfl_dense_kernel(kern, scale, bias, s, rank, nu, t)
+      twin = tfl.layers.KroneckerFactoredLattice(
+          lattice_sizes=s, units=nu, num_terms=t, clip_inputs=clip)
+      twin(tf.constant(twin_in))
+      twin.kernel.assign(kern)
+      twin.scale.assign(scale)
+      twin.bias.assign(bias)
+      k4 = np.abs(kern.astype(np.float64)).reshape(s, nu, rank, t)
+      mag = (np.abs(scale.astype(np.float64)) * np.prod(
+          k4.max(axis=0), axis=1)).mean(axis=1) + np.abs(bias)
+    twin_cols.append(_f64(twin(tf.constant(twin_in))).reshape(b, nu))
+    f = R.interp_simplex if interp == "simplex" else R.interp_hypercube
+    for j, unit in enumerate(units):
+      ref_cols.append(f(flat64[:, unit], dense[:, j], [s] * rank))
+      mags.append(float(mag[j]))
+      mono_flags.append(max(mono))
+  ref = np.stack(ref_cols, axis=1)                  # (b, num) structure order
+  twin_y = np.concatenate(twin_cols, axis=1)
+  mags = np.asarray(mags)
+  mono_flags = np.asarray(mono_flags)
+  tol = TOL_F * mags[None, :] + 1e-30
+  if stage == 0:
+    out.nontrivial = bool(np.ptp(ref) > 10 * float(np.max(tol)))
+  y = _exec(rtl, xin, mode)
+  if rtl.separate_outputs:
+    out.checks += 1
+    want = set()
+    if np.any(mono_flags == 0):
+      want.add("unconstrained")
+    if np.any(mono_flags == 1):
+      want.add("increasing")
+    if not isinstance(y, dict) or set(y.keys()) != want:
+      out.violate("separate_outputs keys %r, expected %r" % (
+          sorted(y.keys()) if isinstance(y, dict) else type(y), sorted(want)),
+                  clause="rtl-output-structure", kind="shape", **sig)
+      return None
+    for key, flag in (("unconstrained", 0), ("increasing", 1)):
+      if key not in want:
+        continue
+      sel = mono_flags == flag
+      _cmp(out, "rtl-vs-ref", _f64(y[key]), ref[:, sel], tol[:, sel], sig)
+      _cmp(out, "twin-lattices-vs-ref", twin_y[:, sel], ref[:, sel],
+           tol[:, sel], sig)
+      _cmp(out, "rtl-vs-twin-lattices", _f64(y[key]), twin_y[:, sel],
+           tol[:, sel], sig)
+    return y
+  y = _f64(y)
+  if rtl.average_outputs:
+    ref = ref.mean(axis=1, keepdims=True)
+    twin_y = twin_y.mean(axis=1, keepdims=True)
+    tol = tol.mean(axis=1, keepdims=True)
+  _cmp(out, "rtl-vs-ref", y, ref, tol, sig)
+  _cmp(out, "twin-lattices-vs-ref", twin_y, ref, tol, sig)
+  _cmp(out, "rtl-vs-twin-lattices", y, twin_y, tol, sig)
+  return y
+
+
 def _run_rtl(case, out):
   import tensorflow as tf
   import tensorflow_lattice as tfl
   rs = np.random.RandomState(case["aux"])
   tf.random.set_seed(case["aux"])
+  opt = _derived(case)
   groups, rank, s, b = case["groups"], case["rank"], case["size"], case["batch"]
   clip, param = case["clip"], case["param"]
   interp = case["interp"] if param == "all_vertices" else "hypercube"
@@ -1016,122 +1454,53 @@ def _run_rtl(case, out):
   if param == "kronecker_factored":
     kw = dict(kernel_initializer="kfl_random_monotonic_initializer",
               num_terms=case["terms"])
+  # output bounds only steer initialisation and constraints of the lattices;
+  # the function of the assigned kernels is the same
+  bounds = opt("bounds", [None, None, [-2.0, 3.0], [0.0, 1.0]], None)
+  if bounds:
+    kw.update(output_min=bounds[0], output_max=bounds[1])
+  mode = opt("exec", EXEC_MODES, "eager")
   rtl = tfl.layers.RTL(
       num_lattices=case["num"], lattice_rank=rank, lattice_size=s,
       separate_outputs=case["separate"], average_outputs=case["average"],
       random_seed=case["rtl_seed"], clip_inputs=clip, interpolation=interp,
       parameterization=param, avoid_intragroup_interaction=case["avoid"], **kw)
   rtl(xin)   # builds
-  structure = [(tuple(int(m) for m in mono),
-                [[int(i) for i in unit] for unit in units])
-               for mono, units in rtl._rtl_structure]
   sig = dict(pair="rtl", param=param, interp=interp,
              separate=case["separate"], format=case["format"])
   out.label("rtl:" + param, "rtl:" + interp, "rtl:input-" + case["format"],
             "rtl:separate" if case["separate"] else (
                 "rtl:averaged" if case["average"] else "rtl:joint"),
-            "rtl:rank=%d" % rank,
-            "rtl:several-monotonicity-patterns" if len(structure) > 1 else
-            "rtl:one-monotonicity-pattern")
-  # the recorded wiring must be usable: right counts, indices in range and of
-  # the recorded monotonicity.
-  out.checks += 1
-  n_units = sum(len(units) for _, units in structure)
-  wiring_ok = n_units == case["num"]
-  for mono, units in structure:
-    for unit in units:
-      wiring_ok &= len(unit) == rank == len(mono)
-      wiring_ok &= all(0 <= i < n_in and is_inc[i] == bool(m)
-                       for i, m in zip(unit, mono))
-  if not wiring_ok:
-    out.violate("_rtl_structure %r does not describe %d lattices of rank %d "
-                "over the flattened input (increasing columns first: %r)" %
-                (structure, case["num"], rank, is_inc),
-                clause="rtl-structure", kind="wiring", **sig)
+            "rtl:rank=%d" % rank, "rtl:size=%d" % s, "rtl:exec-" + mode,
+            "rtl:output-bounds" if bounds else "rtl:no-output-bounds")
+  out.info["derived_options"] = dict(bounds=bounds, exec=mode)
+  y = _rtl_stage(case, out, rs, rtl, xin, flat, is_inc, sig, mode, 0)
+  # the docstring's chain: RTL(separate_outputs=True) feeding a second RTL.
+  # The second layer is judged on the first layer's actual float32 outputs.
+  if y is None or not case["separate"] or out.violations or not opt(
+      "chain", [True, True, False], False):
     return
-  # assign weights to the sub-lattices, build stand-alone twins
-  ref_cols, twin_cols, mags, mono_flags = [], [], [], []
-  flat64 = flat.astype(np.float64)
-  for li, (mono, units) in enumerate(structure):
-    sub = rtl._lattice_layers[str(mono)]
-    nu = len(units)
-    seed_shift = dict(case["kernel"])
-    if seed_shift["kind"] != "explicit":
-      seed_shift["seed"] = (seed_shift["seed"] + 7919 * li) % (2**31 - 1)
-    gathered = np.stack([flat[:, unit] for unit in units], axis=1)  # (b,nu,r)
-    twin_in = gathered[:, 0, :] if nu == 1 else gathered
-    if param == "all_vertices":
-      w = S.materialize(seed_shift, (s ** rank, nu))
-      sub.kernel.assign(w)
-      dense = w.astype(np.float64)
-      twin = tfl.layers.Lattice(lattice_sizes=[s] * rank, units=nu,
-                                clip_inputs=clip, interpolation=interp)
-      twin(tf.constant(twin_in))
-      twin.kernel.assign(w)
-      mag = np.max(np.abs(dense), axis=0)
-    else:
-      t = case["terms"]
-      kern = S.materialize(seed_shift, (s * nu * rank * t, 1)).reshape(
-          1, s, nu * rank, t)
-      kern = np.clip(kern, -1e3, 1e3)
-      scale = rs.normal(size=(nu, t)).astype(np.float32)
-      bias = rs.normal(size=(nu,)).astype(np.float32)
-      sub.kernel.assign(kern)
-      sub.scale.assign(scale)
-      sub.bias.assign(bias)
-      dense = R.kfl_dense_kernel(kern, scale, bias, s, rank, nu, t)
-      twin = tfl.layers.KroneckerFactoredLattice(
-          lattice_sizes=s, units=nu, num_terms=t, clip_inputs=clip)
-      twin(tf.constant(twin_in))
-      twin.kernel.assign(kern)
-      twin.scale.assign(scale)
-      twin.bias.assign(bias)
-      k4 = np.abs(kern.astype(np.float64)).reshape(s, nu, rank, t)
-      mag = (np.abs(scale.astype(np.float64)) * np.prod(
-          k4.max(axis=0), axis=1)).mean(axis=1) + np.abs(bias)
-    twin_cols.append(_f64(twin(tf.constant(twin_in))).reshape(b, nu))
-    f = R.interp_simplex if interp == "simplex" else R.interp_hypercube
-    for j, unit in enumerate(units):
-      ref_cols.append(f(flat64[:, unit], dense[:, j], [s] * rank))
-      mags.append(float(mag[j]))
-      mono_flags.append(max(mono))
-  ref = np.stack(ref_cols, axis=1)                  # (b, num) structure order
-  twin_y = np.concatenate(twin_cols, axis=1)
-  mags = np.asarray(mags)
-  mono_flags = np.asarray(mono_flags)
-  tol = TOL_F * mags[None, :] + 1e-30
-  out.nontrivial = bool(np.ptp(ref) > 10 * float(np.max(tol)))
-  y = rtl(xin)
-  if case["separate"]:
-    out.checks += 1
-    want = set()
-    if np.any(mono_flags == 0):
-      want.add("unconstrained")
-    if np.any(mono_flags == 1):
-      want.add("increasing")
-    if not isinstance(y, dict) or set(y.keys()) != want:
-      out.violate("separate_outputs keys %r, expected %r" % (
-          sorted(y.keys()) if isinstance(y, dict) else type(y), sorted(want)),
-                  clause="rtl-output-structure", kind="shape", **sig)
-      return
-    for key, flag in (("unconstrained", 0), ("increasing", 1)):
-      if key not in want:
-        continue
-      sel = mono_flags == flag
-      _cmp(out, "rtl-vs-ref", _f64(y[key]), ref[:, sel], tol[:, sel], sig)
-      _cmp(out, "twin-lattices-vs-ref", twin_y[:, sel], ref[:, sel],
-           tol[:, sel], sig)
-      _cmp(out, "rtl-vs-twin-lattices", _f64(y[key]), twin_y[:, sel],
-           tol[:, sel], sig)
-    return
-  y = _f64(y)
-  if case["average"]:
-    ref = ref.mean(axis=1, keepdims=True)
-    twin_y = twin_y.mean(axis=1, keepdims=True)
-    tol = tol.mean(axis=1, keepdims=True)
-  _cmp(out, "rtl-vs-ref", y, ref, tol, sig)
-  _cmp(out, "twin-lattices-vs-ref", twin_y, ref, tol, sig)
-  _cmp(out, "rtl-vs-twin-lattices", y, twin_y, tol, sig)
+  order2 = sorted(y.keys())
+  flat2 = np.concatenate([y[k].numpy() for k in order2], axis=1)
+  is_inc2 = []
+  for k in order2:
+    is_inc2 += [k == "increasing"] * int(y[k].shape[1])
+  n2 = flat2.shape[1]
+  rank2 = min(2, n2)
+  kw2 = {}
+  if param == "kronecker_factored":
+    kw2 = dict(kernel_initializer="kfl_random_monotonic_initializer",
+               num_terms=case["terms"])
+  rtl2 = tfl.layers.RTL(
+      num_lattices=-(-n2 // rank2) + 1, lattice_rank=rank2, lattice_size=s,
+      average_outputs=case["average"], random_seed=case["rtl_seed"] + 1,
+      interpolation=interp, parameterization=param, **kw2)
+  xin2 = {k: y[k] for k in (order2 if case["format"] != "dict-rev" else
+                            order2[::-1])}
+  rtl2(xin2)   # builds
+  out.label("rtl:chained")
+  _rtl_stage(case, out, rs, rtl2, xin2, flat2, is_inc2,
+             dict(sig, chained=True), mode, 1)
 
 
 # ---------------------------------------------------------------------------
@@ -1148,5 +1517,10 @@ def strategy(tier):
 def run_case(case):
   out = Outcome()
   out.label("pair:" + case["pair"])
-  _RUN[case["pair"]](case, out)
+  try:
+    _RUN[case["pair"]](case, out)
+  except _ExecCrash as e:
+    out.nontrivial = True
+    out.violate(str(e), kind="exception", exc=e.exc, where="exec-" + e.mode,
+                pair=case["pair"])
   return out
